@@ -81,15 +81,18 @@ func (r *Ring) Write(entries EntryList, block bool) (int, bool) {
 	r.metrics.WriteCalls.Inc()
 	if len(entries) > 0 && r.writable == 0 && !r.closed {
 		if !block {
+			r.verifTrace("write", entries, block, 0)
 			return 0, blocked
 		}
 		r.metrics.WritesBlocked.Inc()
 		for r.writable == 0 && !r.closed {
 			blocked = true
+			r.verifTrace("waitw", entries, block, 0)
 			r.writableC.Wait()
 		}
 	}
 	if r.closed {
+		r.verifTrace("write", entries, block, -1)
 		return -1, blocked
 	}
 	n := min(r.writable, len(entries))
@@ -99,6 +102,7 @@ func (r *Ring) Write(entries EntryList, block bool) (int, bool) {
 	r.readableC.Broadcast()
 	r.metrics.WriteEntries.Observe(float64(n))
 	r.metrics.UsedEntries.Set(float64(r.readable))
+	r.verifTrace("write", entries, block, n)
 	return n, blocked
 }
 
@@ -116,17 +120,20 @@ func (r *Ring) Read(entries EntryList, block bool) (int, bool) {
 	r.metrics.ReadCalls.Inc()
 	if len(entries) > 0 && r.readable == 0 && !r.closed {
 		if !block {
+			r.verifTrace("read", entries, block, 0)
 			return 0, blocked
 		}
 		r.metrics.ReadsBlocked.Inc()
 		for r.readable == 0 && !r.closed {
 			blocked = true
+			r.verifTrace("waitr", entries, block, 0)
 			r.readableC.Wait()
 		}
 	}
 	if r.closed && r.readable == 0 {
 		// Don't return -1 so long as there are still readable entries
 		// available.
+		r.verifTrace("read", entries, block, -1)
 		return -1, blocked
 	}
 	n := min(r.readable, len(entries))
@@ -136,6 +143,7 @@ func (r *Ring) Read(entries EntryList, block bool) (int, bool) {
 	r.writableC.Broadcast()
 	r.metrics.ReadEntries.Observe(float64(n))
 	r.metrics.UsedEntries.Set(float64(r.readable))
+	r.verifTrace("read", entries, block, n)
 	return n, blocked
 }
 
@@ -145,6 +153,7 @@ func (r *Ring) Close() {
 	r.mutex.Lock()
 	defer r.mutex.Unlock()
 	r.closed = true
+	r.verifTrace("close", nil, false, 0)
 	r.writableC.Broadcast()
 	r.readableC.Broadcast()
 }
